@@ -702,7 +702,11 @@ class NetworkGraph(AbstractBaseIR):
                 # only the integer marker 1 stands for "no delay"; a delay of 1.0 time units (any float type) is a delay
                 var_delayed = f"past({var}, {d})" if isinstance(d, float) or d != 1 else var
                 if len(target_shape) < 1 or (len(target_shape) == 1 and target_shape[0] == 1):
-                    buffer_eqs.append(f"{var}_buffered{buffer_id} = {var_delayed}")
+                    if len(delays) == 1:
+                        buffer_eqs.append(f"{var}_buffered{buffer_id} = {var_delayed}")
+                    else:
+                        # a scalar source that projects with several delays: one buffer slot per edge
+                        buffer_eqs.append(f"index({var}_buffered{buffer_id}, {i}) = {var_delayed}")
                 else:
                     # slot `i` of the buffer belongs to the i-th edge (as in the ring-buffer branch); `sidx` is the
                     # unit of the source variable that this edge reads
